@@ -558,6 +558,9 @@ type RWMutex struct {
 	w        *Task
 	r        []*Task
 	pendingW int
+	// lockset bookkeeping (Access): which task touched the guarded tables last, and how often that changed
+	accOwner     *Task
+	accHandovers int
 }
 
 func (m *RWMutex) heldBy(t *Task, writeOnly bool) bool {
@@ -734,6 +737,9 @@ func (m *RWMutex) TryRLock() bool {
 // Mutex replaces sync.Mutex.
 type Mutex struct{ rw RWMutex }
 
+// RW exposes the underlying lock to the lockset probe.
+func (m *Mutex) RW() *RWMutex { return &m.rw }
+
 func (m *Mutex) Lock()         { m.rw.Lock() }
 func (m *Mutex) Unlock()       { m.rw.Unlock() }
 func (m *Mutex) TryLock() bool { return m.rw.TryLock() }
@@ -774,6 +780,29 @@ func Access(mu locker, write bool, pos string) {
 	s.mu.Lock()
 	ok := mu.heldBy(t, write)
 	s.Counters["access"]++
+	if rw, isRW := mu.(*RWMutex); isRW && !ok {
+		// Eraser-style ownership: a scope that only one task has ever touched (a call or block scope that was never
+		// published, say) needs no lock, and one hand-over to another task is tolerated. From the moment the
+		// accessing task changes a second time the scope is shared and every access needs its lock.
+		if rw.accOwner == nil {
+			rw.accOwner = t
+		}
+		if rw.accOwner != t && rw.accHandovers < 2 {
+			rw.accOwner = t
+			rw.accHandovers++
+		}
+		if rw.accHandovers < 2 && rw.accOwner == t {
+			ok = true
+			s.Counters["access_unlocked_but_unshared"]++
+		}
+	} else if rw, isRW := mu.(*RWMutex); isRW {
+		if rw.accOwner == nil {
+			rw.accOwner = t
+		} else if rw.accOwner != t && rw.accHandovers < 2 {
+			rw.accOwner = t
+			rw.accHandovers++
+		}
+	}
 	s.mu.Unlock()
 	if !ok {
 		mode := "read"
@@ -808,6 +837,16 @@ func (s *Sim) NewCtx() *Ctx {
 	s.ctxs = append(s.ctxs, c)
 	s.mu.Unlock()
 	return c
+}
+
+// AccessOf is the lockset probe as the rewriter emits it: x is whatever expression had its values / types
+// field touched. Only scopes (values with the SimLock method the rewriter adds to Env) are checked.
+func AccessOf(x interface{}, table string, write bool, pos string) {
+	if l, ok := x.(interface{ SimLock(string) *RWMutex }); ok {
+		if m := l.SimLock(table); m != nil {
+			Access(m, write, pos)
+		}
+	}
 }
 
 // PollChan is inserted by the rewriter (R7) in front of a select statement that receives from a channel held in a
